@@ -259,9 +259,11 @@ class Tracing(scripted.ScriptedSpawn):
         scripted.ScriptedSpawn.__init__(self, *a, **kw)
         self.trace = []
         self._polled = False
+        self._inner = 0
 
     def begin_call(self):
         self._polled = False
+        self._inner = 0
 
     def read_nonblocking(self, size=1, timeout=-1):
         if timeout == 0:
@@ -275,6 +277,10 @@ class Tracing(scripted.ScriptedSpawn):
         return scripted.ScriptedSpawn.read_nonblocking(self, size, timeout)
 
     def _rec(self, fn, *a, **kw):
+        self._inner += 1
+        if self._inner > 400:
+            raise Violation('runaway', 'more than 400 internal expect calls inside one API call '
+                                       '(a reader that never consumes its match)')
         try:
             r = fn(self, *a, **kw)
         except EOF:
